@@ -416,7 +416,9 @@ PROPS = {
         "level_text": "PARTIAL (power-loss semantics of the file system are outside the model; the unit of atomicity is one repository call "
                       "or one file operation). Proved: reading an entity is blind to objects nothing points to (bfs_mono, read_mono); a "
                       "write path that stores its objects and clocks first and updates one ref last, interrupted after any number of calls, "
-                      "shows every reader exactly the state before or the state after (path_crash_atomic, disciplined_shape), and a retry "
+                      "shows every reader exactly the state before or the state after (path_crash_atomic, disciplined_shape); a path that updates "
+                      "several refs, each once and each to a head that reads fine when it is set (MergeAll, pull), leaves under every ref name "
+                      "exactly the old or exactly the new entity at every crash point (multi_entity_crash_atomic); a retry "
                       "reads the final state (retry_completes); a path that persists the clock before it writes the commit carrying that "
                       "value never leaves a stored time above the persisted clock (clock_not_behind; the converse order has a "
                       "kernel-checked bad crash point); a clock file replaced by rename is never torn (atomic_clock_write) while the "
@@ -428,7 +430,7 @@ PROPS = {
                       "rename atomicity and go-git's loose-object writes are the file system's and library's business. Identity and cache "
                       "scenarios are decided by the oracle only (the Lean store model is the bug DAG). Fixed in /repo: clock files were "
                       "truncated in place.",
-        "required_theorems": ["bfs_mono", "read_mono", "path_crash_atomic", "disciplined_shape", "retry_completes", "clock_not_behind",
+        "required_theorems": ["bfs_mono", "read_mono", "path_crash_atomic", "multi_entity_crash_atomic", "refs_run", "last_target_readable", "disciplined_shape", "retry_completes", "clock_not_behind",
                               "commit_before_clock_is_behind", "atomic_clock_write", "truncating_clock_write_tears",
                               "gen_paths_disciplined", "gen_clock_write_atomic"],
         "slices": ["C06"],
